@@ -9,6 +9,8 @@ INJECT = {
         ("harness/syntax/common_h.rs", "crates/syntax/src/lib.rs", "verif_common"),
         ("harness/syntax/lexer_h.rs", "crates/syntax/src/lexer.rs", "verif_lexer_h"),
         ("harness/syntax/preproc_h.rs", "crates/syntax/src/preprocessor.rs", "verif_preproc_h"),
+        ("harness/syntax/parser_h.rs", "crates/syntax/src/parser.rs", "verif_parser_h"),
+        ("harness/syntax/rules_h.rs", "crates/syntax/src/grammar.rs", "verif_rules_h"),
     ],
     "ide": [
         ("harness/ide/line_index_h.rs", "crates/ide/src/line_index.rs", "verif_line_index_h"),
@@ -84,6 +86,13 @@ HARNESSES += [
 ] + [
     H(f"c15c01c02_pp_{n}_t", ["C15", "C01", "C02"], tier="thorough", weight=100, timeout=3600)
     for n in ["ifdef", "ifndef", "else"]
+]
+L1 = ["c01c02_l1_eat", "c01c02_l1_skip", "c01c02_l1_eat_if", "c01c02c17_l1_expect_with_msg",
+      "c01c02_l1_assert", "c01c02c17_l1_error_and_eat", "c01c02c17_l1_error_and_recover",
+      "c02c17_l1_error_real", "c01c02_l1_new", "c02c04_l1_at_set_tables"]
+HARNESSES += [
+    H(n, [p for p in ("C01", "C02", "C17", "C04") if p.lower() in n.split("_")[0]], weight=40)
+    for n in L1
 ]
 
 
